@@ -293,6 +293,12 @@ func c09IndexID(c *cx, rid string, f *eng.Fn, via string) {
 					return true
 				}
 				forms := g.VarForms(v)
+				// the call's own normal form as well: a condition reached through a
+				// named boolean is normalised at the boolean's definition, where the
+				// result may still be expandable
+				if ept, ok := g.Where(e); ok {
+					forms = append(forms, f.Norm(e, &ept))
+				}
 				bad := ""
 				f.WalkBody(func(m ast.Node) bool {
 					var bounds []ast.Expr
